@@ -84,11 +84,9 @@ fn oracle_ident(case: &[u8], obs: &mut Obs) -> Result<(), String> {
         (a, b, c)
     });
     match r {
-        Ok((a, _, _)) => {
-            if a && case.len() < 16 {
-                return Err(format!("parse_ident accepted a {}-byte buffer", case.len()));
-            }
-        }
+        // totality only: whether a short buffer is refused or answered is not C01's business (C18 relates the
+        // answers on prefixes to the answer on the complete ident)
+        Ok((a, _, _)) => obs.label_if(a, "ident_accepted"),
         Err(p) => obs.known_or_fail("c01.parse_ident_short_buffer", format!("elf::file::parse_ident panicked on the {}-byte buffer {}: {}", case.len(), hex(case), p))?,
     }
     if case.len() >= 4 {
